@@ -33,6 +33,9 @@ struct gm_spec {
 	uint8_t send_prob;      /* probability (/256) that a SEND action fires */
 	uint8_t dest_mode;      /* 0 uniform, 1 ring neighbour, 2 hot spot (fan-in to LP 0), 3 self, 4 drip (rare sends to LP 0) */
 	uint8_t payload_mode;   /* 0 none, 1 small (<=32), 2 mixed incl. >32, 3 big (4000) occasionally */
+	uint16_t post_goal;     /* events an LP keeps handling (and sending) AFTER its predicate holds, before it freezes; 0 = the
+	                           C01 family (state frozen once the predicate holds) */
+	uint8_t victim_nohb;    /* LP 0 has no heartbeat of its own: it only advances through events sent by the others */
 	uint8_t chain_len;      /* length of zero-delay chains (0: only the short ttl<=3 chains encoded in the type) */
 	uint8_t chain_start;    /* probability (/256) that a heartbeat starts a zero-delay chain of its own */
 	uint8_t hb_scale;       /* heartbeat period multiplier: large values give sparse, well separated activity */
@@ -58,7 +61,7 @@ struct gm_report {
 	uint32_t init_calls, fini_calls;
 	int16_t init_rid, fini_rid, init_rank, fini_rank;
 	uint64_t digest;
-	uint32_t handled, goal, frozen;
+	uint32_t handled, goal, frozen, pred;
 	double frozen_at; /* timestamp of the event that froze the LP (-1: at init) */
 };
 
